@@ -13,6 +13,10 @@
      keystream-varies  before xor after of one point agrees on the common prefix with every earlier observation
                     of that point (prefix stability and independence of the plaintext)
      mac-length, message-modified, key-modified, panic
+     result-changed (MacFresh)  the harness writes into every returned MAC right after logging it (inverts every octet, as
+                    Scribble) and keeps hold of it (res); after each later call it re-reads the slice (`held`): it must
+                    still contain the caller's bytes.  That the write does not leak into later results shows through
+                    null-mac-nonzero (MacShape).
      cube-*         the accept set of the full cube alg x bearer 0..255 x direction 0..255, one event per (call, alg)
 
    Total: a disagreement prints MISMATCH, the tracked state is resynchronised on the observation. *)
@@ -32,9 +36,12 @@ Tracked(e) == e.cell \in Dom(cell)
 Continuity(e) == Tracked(e) /\ (IF e.nil THEN cell[e.cell] = Nil ELSE cell[e.cell] = e.before)
 OkGuard(e) == GuardOK(e.alg, e.bearer, e.dir, e.nil)
 Obs(e) == XorSeq(e.before, e.after)
+\* the result cell the caller holds (at most one: the last returned MAC, already written into) is untouched by this call
+HeldOK(e) == IF res = <<>> THEN e.held = <<>> ELSE e.held = res[1].val
 EncKind(e) ==
   LET q == PointOf(e)  c == e.cell IN
   IF ~Continuity(e) THEN "continuity"
+  ELSE IF ~HeldOK(e) THEN "result-changed"
   ELSE IF e.panic THEN "panic"
   ELSE IF ~e.err /\ ~OkGuard(e) THEN "guard-accepts-invalid"
   ELSE IF e.err /\ OkGuard(e) THEN "guard-rejects-valid"
@@ -47,6 +54,7 @@ EncKind(e) ==
   ELSE "ok"
 MacKind(e) ==
   IF ~Continuity(e) THEN "continuity"
+  ELSE IF ~HeldOK(e) THEN "result-changed"
   ELSE IF e.panic THEN "panic"
   ELSE IF ~e.err /\ ~OkGuard(e) THEN "guard-accepts-invalid"
   ELSE IF e.err /\ OkGuard(e) THEN "guard-rejects-valid"
@@ -74,7 +82,7 @@ Kind(e) ==
 \* ---- tracked state, resynchronised on the observation
 Applied(e) == e.op = "Encrypt" /\ ~e.err /\ ~e.panic /\ e.alg \in 1..3 /\ ~e.nil /\ Len(e.after) = Len(e.before)
 Empty == [x \in {} |-> 0]
-TInit == /\ l = 1 /\ cell = Empty /\ plain = Empty /\ odd = Empty /\ ks = Empty /\ last = NoCall /\ TLCSet(2, 0) /\ TLCSet(3, Empty)
+TInit == /\ l = 1 /\ cell = Empty /\ plain = Empty /\ odd = Empty /\ ks = Empty /\ last = NoCall /\ res = <<>> /\ TLCSet(2, 0) /\ TLCSet(3, Empty)
 TNext ==
   /\ l <= Len(TraceLog)
   /\ (LET e == TraceLog[l]  k == Kind(e)  c == e.cell  q == PointOf(e) IN
@@ -99,6 +107,12 @@ TNext ==
                 /\ IF k = "ok" THEN UNCHANGED <<plain, odd, ks>>
                    ELSE /\ plain' = Put(plain, c, IF e.nil THEN Nil ELSE e.after) /\ odd' = Put(odd, c, {}) /\ UNCHANGED ks
            [] OTHER -> UNCHANGED <<cell, plain, odd, ks>>)
+  /\ res' = (LET e == TraceLog[l] IN
+              CASE e.op = "TraceReset" -> <<>>                                  \* the harness lets go of its results
+                [] e.op = "Mac" /\ ~e.err /\ ~e.panic /\ ~e.macnil ->           \* a new result cell, written into at once
+                     <<[val |-> InvT(e.mac), given |-> e.mac, dirty |-> TRUE]>>
+                [] e.op = "Mac" -> <<>>                                         \* no result returned: nothing held any more
+                [] OTHER -> res)
   /\ last' = (LET e == TraceLog[l] IN [NoCall EXCEPT !.op = e.op, !.c = e.cell, !.alg = e.alg, !.bearer = e.bearer, !.dir = e.dir, !.err = e.err, !.mac = e.mac])
   /\ TLCSet(2, l)
   /\ l' = l + 1
